@@ -82,3 +82,11 @@ MUTANTS += [
     ("c12-maxdata-sticky", "C12", [(D, "        self._available, self._maxdata = self._io_manager.connect(self._banner, rsa_keys, auth_timeout_s, auth_callback, adb_info)", "        self._available, maxdata = self._io_manager.connect(self._banner, rsa_keys, auth_timeout_s, auth_callback, adb_info)\n        self._maxdata = max(self._maxdata, maxdata) if self._maxdata != constants.MAX_PUSH_DATA else maxdata")]),
     ("c12-read-lock-not-released-on-error", "C12", [(D, "                # Read from the device\n                cmd, arg0, arg1, data = self._read_packet_from_device(adb_info)\n", "                # Read from the device\n                try:\n                    cmd, arg0, arg1, data = self._read_packet_from_device(adb_info)\n                except exceptions.AdbTimeoutError:\n                    self._store_lock.acquire()\n                    raise\n")]),
 ]
+MUTANTS += [
+    ("c13-guard-missing-root", "C13", [(D, "        if not self.available:\n            raise exceptions.AdbConnectionError(\"ADB command not sent because a connection to the device has not been established.  (Did you call `AdbDevice.connect()`?)\")\n\n        self._service(b'root', b'', transport_timeout_s, read_timeout_s, timeout_s, False)", "        self._service(b'root', b'', transport_timeout_s, read_timeout_s, timeout_s, False)")]),
+    ("c13-close-keeps-available", "C13", [(D, "        self._available = False\n        self._io_manager.close()", "        self._io_manager.close()")]),
+    ("c13-flag-not-reset-at-connect-async", "C13", [(A, "        # Mark the device as unavailable\n        self._available = False\n", "")]),
+    ("c13-pull-opens-file-first", "C13", [(D, "        if not device_path:\n            raise exceptions.DevicePathInvalidError(\"Cannot pull from an empty device path\")\n        if not self.available:\n            raise exceptions.AdbConnectionError(\"ADB command not sent because a connection to the device has not been established.  (Did you call `AdbDevice.connect()`?)\")\n\n        opener = _open_bytesio if isinstance(local_path, BytesIO) else open\n        with opener(local_path, 'wb') as stream:\n",
+                                          "        if not device_path:\n            raise exceptions.DevicePathInvalidError(\"Cannot pull from an empty device path\")\n\n        opener = _open_bytesio if isinstance(local_path, BytesIO) else open\n        with opener(local_path, 'wb') as stream:\n            if not self.available:\n                raise exceptions.AdbConnectionError(\"not connected\")\n")]),
+    ("c13-streaming-guard-missing-async", "C13", [(A, "        if not self.available:\n            raise exceptions.AdbConnectionError(\"ADB command not sent because a connection to the device has not been established.  (Did you call `AdbDeviceAsync.connect()`?)\")\n\n        async for line in self._streaming_service(b'shell'", "        async for line in self._streaming_service(b'shell'")]),
+]
